@@ -111,6 +111,7 @@ type HarnessRun struct {
 	snap      *Exec
 	stubFns   map[string]*ssa.Function
 	snapTried bool
+	havocN    int
 	tainted   bool
 	startWit  map[string]*big.Int
 	lastFull  bool
@@ -978,6 +979,7 @@ func (r *HarnessRun) runAll(workers int) {
 
 func (r *HarnessRun) runPath(prefix []int) {
 	r.prefix = prefix
+	r.havocN = 0
 	r.tainted = false
 	r.pos = 0
 	r.decisions = nil
@@ -1186,8 +1188,9 @@ func (r *HarnessRun) makeSnapshot(order []*ssa.Package) {
 	func() {
 		defer func() {
 			if rec := recover(); rec != nil {
-				if _, is := rec.(*pathEnd); is {
+				if pe, is := rec.(*pathEnd); is {
 					ok = false
+					r.note(fmt.Sprintf("init snapshot failed: %s %s at %s", pe.kind, pe.msg, pe.pos))
 					return
 				}
 				panic(rec)
